@@ -244,6 +244,8 @@ struct ShardOut<C> {
     lp_calls: u64,
     certs: u64,
     infra_error: Option<String>,
+    slowest_s: f64,
+    slowest_classes: String,
 }
 
 enum Outcome {
@@ -326,6 +328,18 @@ pub fn replay_file<P: Property>(p: &P, path: &Path, strict: bool) -> i32 {
 pub fn run_property<P: Property>(p: &P, opts: &RunOpts) -> i32 {
     install_quiet_panic_hook();
     let start = Instant::now();
+    // oracle self-test first: a broken oracle must not produce verdicts
+    match catch_unwind(crate::selftest::run_quiet) {
+        Ok(Ok(())) => {}
+        Ok(Err(e)) => {
+            eprintln!("INFRA-ERROR oracle self-test failed: {e}");
+            return 2;
+        }
+        Err(_) => {
+            eprintln!("INFRA-ERROR oracle self-test panicked");
+            return 2;
+        }
+    }
     let root = verif_root();
     let id = p.id();
     let known = load_known(&root, id);
@@ -466,6 +480,8 @@ pub fn run_property<P: Property>(p: &P, opts: &RunOpts) -> i32 {
                         lp_calls: 0,
                         certs: 0,
                         infra_error: None,
+                        slowest_s: 0.0,
+                        slowest_classes: String::new(),
                     };
                     for _ in 0..per {
                         if min_failed.load(Ordering::Relaxed) < shard {
@@ -481,7 +497,16 @@ pub fn run_property<P: Property>(p: &P, opts: &RunOpts) -> i32 {
                         let case = tree.current();
                         out.evaluations += 1;
                         HEARTBEAT.store(now_s(), Ordering::Relaxed);
-                        match run_one(p, &case, open, false) {
+                        let t_case = Instant::now();
+                        let outcome = run_one(p, &case, open, false);
+                        let dt = t_case.elapsed().as_secs_f64();
+                        if dt > out.slowest_s {
+                            out.slowest_s = dt;
+                            if let Outcome::Pass(ctx) = &outcome {
+                                out.slowest_classes = ctx.classes.iter().cloned().collect::<Vec<_>>().join(",");
+                            }
+                        }
+                        match outcome {
                             Outcome::Pass(ctx) => {
                                 if ctx.nontrivial {
                                     out.nontrivial_hashes.insert(case_hash(&case));
@@ -565,7 +590,11 @@ pub fn run_property<P: Property>(p: &P, opts: &RunOpts) -> i32 {
     let mut rejects = 0;
     let mut lp_calls = 0;
     let mut certs = 0;
+    let mut slowest = (0.0f64, String::new());
     for (_, o) in outs {
+        if o.slowest_s > slowest.0 {
+            slowest = (o.slowest_s, o.slowest_classes.clone());
+        }
         total_eval += o.evaluations;
         nontrivial.extend(o.nontrivial_hashes);
         for (k, v) in o.classes {
@@ -609,6 +638,9 @@ pub fn run_property<P: Property>(p: &P, opts: &RunOpts) -> i32 {
     );
     for (k, v) in &known_hit {
         println!("known finding {k}: excluded {v} occurrence(s) from this run");
+    }
+    if std::env::var("VERIF_VERBOSE").is_ok() {
+        println!("slowest case: {:.2}s [{}]", slowest.0, slowest.1);
     }
     if let Some((case, f, iters)) = first_fail {
         let path = write_replay(&root, id, &case, &f, "found");
